@@ -1048,12 +1048,18 @@ def check_zip(ctx):
         ctx.violation("C03-g", loop, "Zip._yield never starts a new tuple inside the round loop: values of earlier rounds stay in it",
                       construct="zip-reset")
     else:
+        # the reset is one of the straight-line statements of the round that precede the first compound statement
+        # (the branch loop): it is executed in every round, before any value of the round is appended
         real = [st for st in loop.body if not A.is_noop_stmt(st)]
-        first = real[0] if real else None
-        if ctx.require(isinstance(first, ast.Assign) and len(first.targets) == 1 and isinstance(first.targets[0], ast.Name)
-                       and first.targets[0].id == valvar and is_empty_list(first.value), "C03-g", loop,
-                       "Zip._yield: the round does not start with `value = []`"):
-            ctx.ok("C03-g", first, "value = [] at the start of each round")
+        head = []
+        for st in real:
+            if isinstance(st, (ast.For, ast.While, ast.If, ast.Try, ast.With)):
+                break
+            head.append(st)
+        first = [st for st in head if isinstance(st, ast.Assign) and len(st.targets) == 1 and isinstance(st.targets[0], ast.Name)
+                 and st.targets[0].id == valvar and is_empty_list(st.value)]
+        if ctx.require(len(first) == 1, "C03-g", loop, "Zip._yield: the round does not start with `value = []`"):
+            ctx.ok("C03-g", first[0], "value = [] at the start of each round")
     # _compute/_request collect the branch results in order and hand them to _yield
     cls = ctx.tree.cls(ZIP, "Zip")
     ms = methods(cls)
